@@ -122,10 +122,10 @@ type ACLEntry struct {
 // ACL is a programmable in-process access-control chaincode.
 type ACL struct {
 	mu       sync.Mutex
-	ByKeys   map[string]*ACLEntry      // "k1/k2/..." as sent by the chaincode
-	KeyTypes map[string]fpb.KeyType    // per public key (base58)
+	ByKeys   map[string]*ACLEntry        // "k1/k2/..." as sent by the chaincode
+	KeyTypes map[string]fpb.KeyType      // per public key (base58)
 	Accounts map[string]*fpb.AccountInfo // per address (base58check)
-	UserIDs  map[string]string         // per address: user id carried in pb.Address
+	UserIDs  map[string]string           // per address: user id carried in pb.Address
 	Rights   map[string]bool
 	Calls    int
 	// Force, when set, overrides every answer (fault injection for C14):
